@@ -58,8 +58,8 @@ func (l *Lexer) lexToSpaceTokenEat(currentChar rune) strings.Builder {
 	for {
 		char := l.reader.Read()
 
-		if unicode.IsSpace(char) {
-			if char != '\n' {
+		if unicode.IsSpace(char) || char == 0 {
+			if char != '\n' && char != 0 {
 				l.IsSpace = true
 			}
 
